@@ -458,7 +458,7 @@ def pristine_batch(jobs):
             'buf = io.BytesIO(); np.savez(buf, **out); sys.stdout.buffer.write(buf.getvalue())\n')
     env = dict(os.environ, PSI_REPO=C.REPO, PYTHONDONTWRITEBYTECODE='1')
     r = subprocess.run([sys.executable, '-c', code, C.VERIF], input=json.dumps(jobs).encode(), capture_output=True,
-                       env=env, timeout=600)
+                       env=env, timeout=90)
     if r.returncode != 0:
         raise RuntimeError('reference interpreter failed: ' + r.stderr.decode()[-300:])
     z = np.load(io.BytesIO(r.stdout))
@@ -479,7 +479,7 @@ def pristine_draw(tree, n):
             'sys.stdout.buffer.write(a.tobytes())\n')
     env = dict(os.environ, PSI_REPO=C.REPO, PYTHONDONTWRITEBYTECODE='1')
     r = subprocess.run([sys.executable, '-c', code, C.VERIF, json.dumps(tree), str(n)], capture_output=True, env=env,
-                       timeout=300)
+                       timeout=90)
     if r.returncode != 0:
         raise RuntimeError('pristine interpreter failed: ' + r.stderr.decode()[-300:])
     return np.frombuffer(r.stdout, dtype=np.float64)
